@@ -65,7 +65,9 @@ def grid(tier):
 def queries(tier, prop='C01'):
     ub = prop == 'C02'
     out = []
-    for (elt, cap) in grid(tier):
+    g = grid(tier)
+    if ub and tier == 'quick': g = [(0, 0), (0, 3), (2, 3)]   # C02 quick: zero / trivial / non-trivial storage, every state of capacity 3
+    for (elt, cap) in g:
         esz = 8 if elt == 1 else 4
         objsz = cap * esz + 16
         for na in range(cap + 1):
